@@ -74,6 +74,8 @@ def c01(ctx, e):
 
     # ... and a replayed FAILURE raises the RECORDED error: message and type of the backend's error object
     for path, dl in e.rec.delivered.items():
+        if "#" in path:
+            continue            # pseudo positions (callback creation / result)
         rec = e.backend.ops.get(path_id(path))
         if rec is None or rec.get("Status") != "FAILED" or rec.get("Type") not in ("STEP", "CONTEXT") or not isinstance(rec.get("_error"), dict):
             continue
